@@ -819,6 +819,7 @@ def run(res: Results, idx: Index, tier: str) -> None:
     rule_n(res, idx, m)
     rule_o(res, idx, m)
     rule_p(res, idx, m)
+    rule_q(res, idx, m)
 
 
 # ---------------------------------------------------------------------------------------------- R-C02k
@@ -1284,3 +1285,40 @@ def rule_p(res: Results, idx: Index, m: Module) -> None:
             else:
                 res.ok("R-C02p", site, key, f"{n_cons} reader(s) of the inserted node's output are the anchor itself" + (" (anchor is the first node)" if first else ""), fi.qualname)
     res.analysed["insert_before_sites"] = n
+
+
+# ---------------------------------------------------------------------------------------------- R-C02q
+def rule_q(res: Results, idx: Index, m: Module) -> None:
+    """Every value name of a graph is defined once.  A pass that creates a value has to name it freshly: through a helper that
+    looks at the names the graph already uses, or with the name of a value the same rewrite replaces (the old output of the
+    node it removes).  A name derived from something that STAYS in the graph (`f"{reducer.name}_axes_optimized"`) repeats when
+    the rewrite fires twice on the same node — the lift pass then raises, and the default policy returns a model in which the
+    name is defined twice."""
+    res.rule("R-C02q", "values created by optimizer passes are named freshly (freshness helper) or take over the name of the value they replace", floor=3)
+    fresh_helpers = {fi.name for fi in m.funcs.values() if "fresh" in fi.name.lower() and any(isinstance(x, ast.While) or isinstance(x, ast.For) for x in ast.walk(fi.node))}
+    n = 0
+    for fi in m.funcs.values():
+        du = None
+        for c in walk_no_nested(fi.node):
+            if not (isinstance(c, ast.Call) and (call_name(c) or "") == "ir.Value"):
+                continue
+            nm = next((k.value for k in c.keywords if k.arg == "name"), None)
+            if nm is None:
+                continue
+            n += 1
+            key = f"{OPT}::{fi.qualname}::value-name#{sum(1 for x in walk_no_nested(fi.node) if isinstance(x, ast.Call) and (call_name(x) or '') == 'ir.Value' and x.lineno < c.lineno)}"
+            site = f"{OPT}:{c.lineno}"
+            if any(isinstance(x, ast.Call) and (call_name(x) or "") in fresh_helpers for x in ast.walk(nm)):
+                res.ok("R-C02q", site, key, f"`{src(nm, 50)}` goes through a freshness helper", fi.qualname)
+                continue
+            if isinstance(nm, ast.Attribute) and nm.attr == "name" and isinstance(nm.value, ast.Name):
+                old = nm.value.id
+                replaced = any(isinstance(x, ast.Call) and (call_name(x) or "").endswith("replace_all_uses_with") and x.args and isinstance(x.args[0], ast.Name) and x.args[0].id == old for x in walk_no_nested(fi.node))
+                if replaced:
+                    res.ok("R-C02q", site, key, f"takes over the name of `{old}`, whose uses the same rewrite re-routes to the new value", fi.qualname)
+                    continue
+            res.violation("R-C02q", site, key, f"`ir.Value(name={src(nm, 50)}, …)`: the name is neither made fresh against the graph nor taken over from a value this rewrite replaces; when the rewrite fires twice "
+                          "(or the user already has a value of that name) the graph defines the name twice", fi.qualname)
+    res.analysed["pass_created_values"] = n
+    if not fresh_helpers:
+        res.unresolved("R-C02q", f"{OPT}:1", f"{OPT}::freshness-helper", "no freshness helper found in the optimizer module", "")
